@@ -182,9 +182,9 @@ def compute_wigner_angles(
     z_y = ArraySlice(wigner_rotation_matrix, (slice(None), 3, 2))
     z_z = ArraySlice(wigner_rotation_matrix, (slice(None), 3, 3))
     suffix = get_helicity_suffix(topology, state_id)
-    alpha, beta, gamma = sp.symbols(
-        f"alpha{suffix} beta{suffix} gamma{suffix}", real=True
-    )
+    alpha = sp.Symbol(f"alpha{suffix}", real=True)  # suffix may contain a comma
+    beta = sp.Symbol(f"beta{suffix}", real=True)
+    gamma = sp.Symbol(f"gamma{suffix}", real=True)
     return {
         alpha: sp.atan2(z_y, z_x),
         beta: sp.acos(z_z),
